@@ -99,10 +99,9 @@ def lstrip (c : Nat) : PStr → PStr
 /-- `int(name.lstrip("x"), 16)` / `int(name)`, as far as the tokenizer's names go (digits only after the marker);
     `none` = `ValueError` (empty digit string, or a decimal string beyond `sys.int_max_str_digits`) -/
 def charrefNumber (cfg : ACfg) (name : PStr) : Option Nat :=
-  match name with
-  | 120 :: _ => parseDigits 16 hexVal (lstrip 120 name)
-  | 88 :: _ => parseDigits 16 hexVal (lstrip 88 name)
-  | _ => if name.length > cfg.maxDigits then none else parseDigits 10 decVal name
+  if name.head? = some 120 then parseDigits 16 hexVal (lstrip 120 name)
+  else if name.head? = some 88 then parseDigits 16 hexVal (lstrip 88 name)
+  else if name.length > cfg.maxDigits then none else parseDigits 10 decVal name
 
 /-- is `chr(n)` defined? -/
 def chrOK (n : Nat) : Bool := n ≤ 0x10FFFF
@@ -203,6 +202,16 @@ def elemsOf : Doc → List (Name × List Doc)
 def elemsOfL : List Doc → List (Name × List Doc)
   | [] => []
   | d :: ds => elemsOf d ++ elemsOfL ds
+end
+
+-- a flat code of a forest (injective), so that concrete trees can be compared by `decide`
+mutual
+def code : Doc → List Nat
+  | .elem n _ ks => 1 :: n.length :: (n ++ codeL ks ++ [2])
+  | .text c s => 3 :: c :: s.length :: s
+def codeL : List Doc → List Nat
+  | [] => []
+  | d :: ds => code d ++ codeL ds
 end
 
 end BS.Adapter
